@@ -255,6 +255,10 @@ def pickndrop(
         return
 
     position_front = state.agent.front()
+
+    if not state.grid.area.contains(position_front):
+        return
+
     obj_front = state.grid[position_front]
     can_be_dropped = isinstance(obj_front, Floor) or obj_front.holdable
 
